@@ -208,8 +208,12 @@ def c15d(ctx):
             contains(t, lambda x: isinstance(x, ast.Constant) and x.value == 3)
     ctx.check(ok, '_result_iter:triple-to-exception', 'an exc_info triple becomes .exception and .result is None', ri,
               fail='_result_iter does not move a transported exc_info triple into AsyncResult.exception (swallowed or reported as result)')
-    ys = g.find(lambda x: isinstance(x, ast.Yield))
     lp = [s for s in ri.walk() if isinstance(s, ast.For)]
+    inits = [s for s in ri.walk() if isinstance(s, ast.Assign) and unparse(s.targets[0]) == 'exception' and const_value(s.value, 1) is None]
+    ok = bool(lp) and bool(inits) and all(inside(s, lp[0]) for s in inits) and bool(ar) and all(s.lineno < ar[0][1].lineno for s in inits)
+    ctx.check(ok, '_result_iter:exception-reset-per-item', '`exception` is reset to None for every item (inside the loop, before the AsyncResult is built)', ri,
+              fail='the exception of a failed item is carried over to the following items: successful items are reported as failed')
+    ys = g.find(lambda x: isinstance(x, ast.Yield))
     ok = len(ys) == 2 and bool(lp) and all(inside(y, lp[0]) for n, y in ys)
     ctx.check(ok, '_result_iter:one-per-item', 'exactly one value is yielded per item in both modes', ri)
     sc = ctx.fn(A + ':ThreadPool._single_call')
